@@ -683,7 +683,6 @@ var loopForms = map[string]string{
 	"labelled-continue": `var i=0; L: while(i++<%K){ continue L }`,
 	"recursion":         `function r(n){ return n<=0?0:r(n-1) } r(%K)`,
 	"foreach":           `var a=[]; for(var j=0;j<%K;j++) a[j]=j; a.forEach(function(){})`,
-	"sort":              `var a=[]; for(var j=0;j<%K;j++) a[j]=(j*7)%5; a.sort(function(x,y){return x-y})`,
 	"replace":           `var s=""; for(var j=0;j<%K;j++) s+="a"; s.replace(/a/g,function(){return "b"})`,
 }
 
@@ -702,7 +701,7 @@ func pollsOf(src string) (int64, string) {
 
 var pollFacet = harness.Register(&harness.Facet[pollCase]{
 	Name:     "every-iteration-polls",
-	Rule:     "rapid: a loop form (empty-bodied for/while/do-while in both spellings, for-in, labelled continue, recursion, forEach/sort/replace callbacks) run with K1 and K2 > K1 iterations under a counting interrupt function; oracle: polls(K2) - polls(K1) >= K2 - K1, i.e. no iteration of any loop form makes progress without reaching a polling point (so an interrupt is delivered before unbounded further progress); non-trivial = every case; distinct by (form, K1, K2)",
+	Rule:     "rapid: a loop form (empty-bodied for/while/do-while in both spellings, for-in, labelled continue, recursion, forEach/replace callbacks) run with K1 and K2 > K1 iterations under a counting interrupt function; oracle: polls(K2) - polls(K1) >= K2 - K1 (for sort, whose comparator-call count is not monotone in the length: polls >= number of comparator calls), i.e. no iteration of any loop form makes progress without reaching a polling point (so an interrupt is delivered before unbounded further progress); non-trivial = every case; distinct by (form, K1, K2)",
 	Quick:    300,
 	Thorough: 3000,
 	Gen: func(t *rapid.T) pollCase {
@@ -710,12 +709,29 @@ var pollFacet = harness.Register(&harness.Facet[pollCase]{
 		for f := range loopForms {
 			forms = append(forms, f)
 		}
+		forms = append(forms, "sort-callbacks")
 		sortStrings(forms)
 		k1 := rapid.IntRange(1, 30).Draw(t, "k1")
 		return pollCase{Form: rapid.SampledFrom(forms).Draw(t, "form"), K1: k1, K2: k1 + rapid.IntRange(1, 40).Draw(t, "dk")}
 	},
 	Check: func(c pollCase) harness.Outcome {
 		out := harness.Outcome{Nontrivial: true, Classes: []string{"form:" + c.Form}}
+		if c.Form == "sort-callbacks" || c.Form == "sort" {
+			// the number of comparator calls is not monotone in the array length: count the calls instead —
+			// every callback invocation must reach at least one polling point
+			r := newRig()
+			r.limit = 1 << 40
+			res, wedged := r.submit("run", strings.ReplaceAll(`var n=0, a=[]; for(var j=0;j<%K;j++) a[j]=(j*7)%5; a.sort(function(x,y){ n++; return x-y }); n`, "%K", strconv.Itoa(c.K2)))
+			if wedged || res.Panicked || res.Err != nil {
+				out.Fail = "sort program failed: " + res.Describe()
+				return out
+			}
+			calls, _ := res.Value.ToInteger()
+			if r.polls < calls {
+				out.Fail = fmt.Sprintf("sort with %d elements made %d comparator calls but only %d polling points were reached", c.K2, calls, r.polls)
+			}
+			return out
+		}
 		p1, e1 := pollsOf(strings.ReplaceAll(loopForms[c.Form], "%K", strconv.Itoa(c.K1)))
 		p2, e2 := pollsOf(strings.ReplaceAll(loopForms[c.Form], "%K", strconv.Itoa(c.K2)))
 		if e1 != "" || e2 != "" {
